@@ -40,7 +40,12 @@ Ptrs == {"", "/", "/publicKey", "/publicKey/0", "/publicKey/0/id", "/publicKey/-
          \* pointers through a member named "" (an empty reference token): not the protected members
          "//publicKey/0", "//service",
          \* a line feed inside a reference token (pattern matching that stops at line ends)
-         "/service/0/new\nmember", "/publicKey/0/a\nb"}
+         "/service/0/new\nmember", "/publicKey/0/a\nb",
+         \* pointer TEXT that holds a backslash escape or a quote: the member called \u0070ublicKey (twelve characters), and a
+         \* member whose name holds quotes - what they would mean after one more round of JSON decoding is of no concern
+         "/\\u0070ublicKey", "/x\",\"path\":\"/service",
+         \* a member named like the document member of a resolution result: a member like any other
+         "/didDocument"}
 
 UnderPK(p)  == p \in {"/publicKey", "/publicKey/0", "/publicKey/0/id", "/publicKey/-", "#/publicKey/0", "/publicKey/0/a\nb", "#/public%4Bey/0"}
 UnderSvc(p) == p \in {"/service", "/service/0", "/service/0/serviceEndpoint", "x/service", "/service/0/new\nmember", "#/%73ervice/0"}
@@ -52,7 +57,7 @@ UsesFrom(k) == k \in {"move", "copy"}
 \* locations an operation writes to (or removes from); an operation whose members are not spelled as RFC 6902
 \* spells them (see Respelled) is no operation: it cannot be applied, the list fails and nothing is written
 Written(o) ==
-    IF o.spell # "plain" THEN {} ELSE
+    IF o.spell \notin {"plain", "Extra"} THEN {} ELSE
     CASE o.kind \in {"add", "remove", "replace"} -> {o.path}
       [] o.kind = "move" -> {o.from, o.path}
       [] o.kind = "copy" -> {o.path}
@@ -63,6 +68,8 @@ MayAlterSvc(o) == \E p \in Written(o) : UnderSvc(p) \/ Root(p)
 
 \* the intended validator
 OpValidated(o) == ~Protected(o.path) /\ ((CheckFrom /\ UsesFrom(o.kind) /\ o.spell # "From") => ~Protected(o.from))
+\* (for an operation that does not use from - an add with a superfluous from member - the intended validator may or may
+\* not look at it: the harness judges by the effect on the document, not by the verdict)
 
 Op(k, p, f) == [kind |-> k, path |-> p, from |-> f, spell |-> "plain"]
 \* member names / operation names in another letter case: "From" for from, "Op" for op, "Move" for move.  JSON member
@@ -75,7 +82,12 @@ RespelledMoves ==
                   p \in {"/other", "/publicKey/-", "/service/0/serviceEndpoint"}} : k \in {"move", "copy"}}
 RespelledOthers ==
     UNION {UNION {RespelledOp(k, p) : p \in {"/publicKey/0", "/service", "/other/a"}} : k \in {"add", "remove", "replace"}}
-Respelled == RespelledMoves \cup RespelledOthers
+\* "Extra": the operation also carries a member that RFC 6902 does not define for its kind (a move / copy with a value,
+\* an add / replace / remove with a from): the member is ignored, the operation is what its kind says
+WithExtra ==
+    UNION {UNION {UNION {{[kind |-> k, path |-> p, from |-> f, spell |-> "Extra"]} : f \in {"/publicKey/0", "/publicKey", "/service/0", "/other/a"}} :
+                  p \in {"/other", "/other/b"}} : k \in {"move", "copy", "add", "replace"}}
+Respelled == RespelledMoves \cup RespelledOthers \cup WithExtra
 OpsWithPath == UNION {{Op(k, p, p) : p \in Ptrs} : k \in Kinds \ {"move", "copy"}}
 OpsWithFrom == UNION {UNION {{Op(k, p, f) : f \in Ptrs} : p \in Ptrs} : k \in {"move", "copy"}}
 AllOps == OpsWithPath \cup OpsWithFrom \cup Respelled
